@@ -221,7 +221,10 @@ func reifyMap(opts *options, to reflect.Value, from *Config, validators []valida
 		if !old.IsValid() {
 			v, err = reifyValue(fieldOptions{opts: opts}, to.Type().Elem(), value)
 		} else {
-			v, err = reifyMergeValue(fieldOptions{opts: opts}, old, value)
+			// a map entry is not addressable: merge into a copy, which is stored back below
+			tmp := reflect.New(old.Type()).Elem()
+			tmp.Set(old)
+			v, err = reifyMergeValue(fieldOptions{opts: opts}, tmp, value)
 		}
 
 		if err != nil {
